@@ -230,3 +230,30 @@ def gen_env_sizers(rnd):
     if rnd.random() < 0.5:
         ms.append(M("plain", I(rnd.choice([1, 2, 8]))))
     return [S.StructDef(ms)]
+
+
+def assign_shifts(rnd, defs):
+    """Give some dynamic / externally sized arrays a bound SHIFT (Python
+    runtime only: array(T, bound=.., shift=s); the wire counter is length + s).
+    In the schema the shift sits in the otherwise unused field n of those forms.
+    Arrays sharing one sizer share the shift; a sizer that also counts a
+    limited array keeps shift 0.  Returns True if any shift was assigned."""
+    any_ = False
+    for d in defs:
+        if d["k"] != "struct":
+            continue
+        per_sizer = {}
+        for m in d["ms"]:
+            if m["f"] == "limx":
+                per_sizer[m["c"]] = 0
+        for m in d["ms"]:
+            if m["f"] == "dyn":
+                m["n"] = rnd.choice([0, 1, 2, 3])
+            elif m["f"] == "ext":
+                if m["c"] not in per_sizer:
+                    per_sizer[m["c"]] = rnd.choice([0, 1, 2])
+                m["n"] = per_sizer[m["c"]]
+            else:
+                continue
+            any_ = any_ or m["n"] > 0
+    return any_
